@@ -43,6 +43,10 @@ def make_targets(a, prog):
             terms.append(('add', None, None))
             terms[-1] = (1, ('mul', V(fx.GetVariableName(v)), V(xr.GetVariableName(cur))))
     out = [('valued-zero', G.sum_ast(terms))]
+    # the receiver of a cross-currency flow is credited amount * (sender rate / receiver rate): together with
+    # valued-zero this is what the per-zone balances say (a 1:1 credit breaks the receiving zone's balance)
+    import c01
+    out.extend(c01.make_targets(a, prog))
     has_gold = any(n.endswith('__GOLDPURCHASES') for n in names)
     if not has_gold:
         out.append(('numeraire-zero', V(fx.GetVariableName('NET_' + ext.Currency))))
